@@ -504,7 +504,70 @@ def c06_10(ctx):
     return out
 
 
+def c06_11(ctx):
+    """BIP341/342 signature encoding: a non-empty taproot signature is 64 bytes (SIGHASH_DEFAULT) or 65 bytes whose last
+    byte, the hash type, is not 0x00.  The implicit hash type 0 may be chosen only for a 64-byte signature, and the
+    explicit byte may be stripped only when it is in [1, 255] — otherwise a valid 64-byte signature with 0x00 or junk
+    appended (65 / 66+ bytes) still verifies and signatures become malleable."""
+    out = []
+    for spec in ("op:op_checksig_schnorr", "op:op_checksigadd_schnorr"):
+        mod, fn = rl.get(ctx, spec)
+        cfg = cfg_of(fn)
+        # the variable that holds the signature element: the one sliced with [:-1] / indexed with [-1]
+        sigv = None
+        for n in cfg.stmts(("stmt",)):
+            a = n.ast
+            if isinstance(a, ast.Assign) and isinstance(a.value, ast.Subscript) and isinstance(a.value.value, ast.Name) and ast.unparse(a.value.slice) == "-1":
+                sigv = a.value.value.id
+        if sigv is None:
+            out.append(ctx.err(spec, "hash-type byte extraction `sig[-1]` not found", fn, mod))
+            continue
+        lk, hk = "len(%s)" % sigv, None
+        implicit, strip = [], []
+        for n in cfg.stmts(("stmt",)):
+            a = n.ast
+            if isinstance(a, ast.Assign) and isinstance(a.targets[0], ast.Name):
+                if isinstance(a.value, ast.Subscript) and isinstance(a.value.value, ast.Name) and a.value.value.id == sigv and ast.unparse(a.value.slice) == "-1":
+                    hk = a.targets[0].id
+        if hk is None:
+            out.append(ctx.err(spec, "hash type variable not found", fn, mod))
+            continue
+        for n in cfg.stmts(("stmt",)):
+            a = n.ast
+            if isinstance(a, ast.Assign) and isinstance(a.targets[0], ast.Name):
+                if a.targets[0].id == hk and isinstance(a.value, ast.Constant) and a.value.value == 0:
+                    implicit.append(n)
+                if a.targets[0].id == sigv and isinstance(a.value, ast.Subscript) and ast.unparse(a.value.slice) == ":-1":
+                    strip.append(n)
+        if not implicit or not strip:
+            out.append(ctx.err(spec, "implicit hash type / hash-type strip statements not found", fn, mod))
+            continue
+        ra = Ranges(ctx.repo, mod, fn, {lk: ISet.range(0, None), hk: ISet.range(0, 255)}, types={hk: ISet.range(0, 255), lk: ISet.range(0, None)})
+        if ra.uninterpreted:
+            out.append(ctx.err(spec, "test on the signature length / hash type not understood: %s" % ra.uninterpreted[0][1], fn, mod))
+            continue
+        for n in implicit:
+            s = ra.at(n.id, lk)
+            if s == ISet.point(64):
+                out.append(ctx.ok(spec, "the implicit hash type SIGHASH_DEFAULT is used for 64-byte signatures only", n.ast, mod, key="len64"))
+            else:
+                w = s.minus(ISet.point(64)).witness((66, 63, 1))
+                out.append(ctx.bad(spec, "a %s-byte signature is verified with the implicit hash type (lengths %s reach `%s`): a valid 64-byte signature with extra bytes "
+                                         "appended still verifies; BIP341 fails every length other than 64 and 65" % (w, s, ast.unparse(n.ast)), n.ast, mod, key="len64"))
+        for n in strip:
+            sl, sh = ra.at(n.id, lk), ra.at(n.id, hk)
+            if sl != ISet.point(65):
+                out.append(ctx.bad(spec, "the hash type byte is stripped for lengths %s, BIP341: 65 only" % sl, n.ast, mod, key="len65"))
+            elif not sh.intersect(ISet.point(0)).is_empty():
+                out.append(ctx.bad(spec, "a 65-byte signature whose hash type byte is 0x00 is accepted (hash type ∈ %s at `%s`): BIP341 fails an explicit SIGHASH_DEFAULT, "
+                                         "so sig ‖ 00 is a second valid encoding of every default signature" % (sh, ast.unparse(n.ast)), n.ast, mod, key="explicit-default"))
+            else:
+                out.append(ctx.ok(spec, "65-byte signatures carry a hash type in %s (explicit 0x00 fails)" % sh, n.ast, mod, key="explicit-default"))
+    return out
+
+
 OBLIGATIONS = [
+    ("C06.11", "RANGE accept-set", c06_11),
     ("C06.1", "GUARD per-iteration", c06_1),
     ("C06.2", "GUARD polarity", c06_2),
     ("C06.3", "GUARD", c06_3),
